@@ -32,7 +32,7 @@ hlib.encoded(F.SegmentFetcher._do_loop, F.SegmentFetcher._find_and_use_share, F.
 _QUEUE = []
 
 
-def _eventually(f, *a, **kw):
+def _eventually(f, /, *a, **kw):
     _QUEUE.append((f, a, kw))
 
 
@@ -374,3 +374,162 @@ def h_step(n: int, p0: int, s0: int, p1: int, s1: int, p2: int, s2: int,
     nm = True if nms else False
     bs = True if badseg else False
     return M.run_concrete(_step_check, recs, kk, nm, lim, e, a, bs)
+
+
+# =====================================================================================================
+# Share-level request bookkeeping: a share that cannot supply bytes it really needs must be abandoned
+# (DEAD to every waiting fetcher), so that the fetcher can fail over.  Real Share.get_block / loop /
+# _do_loop / _send_requests / _got_data / _got_error / _trigger_loop / _fail.
+# =====================================================================================================
+from twisted.internet import defer
+from twisted.python.failure import Failure
+from allmydata.immutable.downloader import share as SH
+from allmydata.immutable.downloader.share import Share, DataUnavailable
+from allmydata.util import observer as OBS
+from allmydata.util.spans import Spans, DataSpans
+
+SH.eventually = _eventually
+OBS.eventually = _eventually
+hlib.encoded(Share.get_block, Share.schedule_loop, Share.loop, Share._do_loop, Share._send_requests, Share._send_request,
+             Share._got_data, Share._got_error, Share._trigger_loop, Share._fail, OBS.EventStreamObserver)
+NOTES.append("share_truncated: Share is built with __new__; _get_satisfaction is stubbed to 'nothing can be validated yet' and _desire to the symbolic (wanted, needed) "
+             "spans, so the obligation is about the request/response bookkeeping only (what is validated from received data is C02); the storage server is a fake whose "
+             "read(start, length) returns the bytes of a share image of symbolic length (short or empty answers past the end) or fails; eventually() in downloader.share and "
+             "util.observer is the harness queue")
+
+
+class _BlockEv(object):
+    def finished(self, n, when):
+        pass
+
+    def error(self, when):
+        pass
+
+
+class _ShareDS(object):
+    def add_misc_event(self, *a):
+        pass
+
+    def add_block_request(self, *a):
+        return _BlockEv()
+
+
+class _TruncServer(object):
+    """storage server facade + remote bucket: the share image is `size` bytes long"""
+
+    def __init__(self, size, fail_read):
+        self.size = size
+        self.fail_read = fail_read
+        self.reads = []
+
+    def get_name(self):
+        return b"srvT"
+
+    def callRemote(self, name, *a):
+        if name != "read":
+            raise hlib.HarnessError("unexpected remote call %r" % (name,))
+        (start, length) = a
+        self.reads.append((start, length))
+        if self.fail_read:
+            return defer.fail(RuntimeError("connection lost"))
+        end = min(start + length, self.size)
+        return defer.succeed(b"d" * max(0, end - start))
+
+
+def _trunc_check(ws, wl, ns, nl, size, fail_read, nobs):
+    del _QUEUE[:]
+    srv = _TruncServer(size, fail_read)
+    sh = Share.__new__(Share)
+    sh._rref = srv
+    sh._server = srv
+    sh._shnum = 0
+    sh._si_prefix = "si"
+    sh._lp = None
+    sh._alive = True
+    sh._loop_scheduled = False
+    sh._pending = Spans()
+    sh._received = DataSpans()
+    sh._unavailable = Spans()
+    sh._requested_blocks = []
+    sh._download_status = _ShareDS()
+    sh.had_corruption = False
+    wanted = Spans()
+    if wl:
+        wanted.add(ws, wl)
+    needed = Spans()
+    if nl:
+        needed.add(ns, nl)
+    sh._get_satisfaction = lambda: False
+    calls = []
+
+    def desire():
+        # speculative ("wanted") bytes are desired only until the first answers are in (in the real _desire they depend on
+        # what is still unknown); needed bytes stay desired until they are consumed
+        calls.append(1)
+        return (Spans(wanted) if len(calls) == 1 else Spans(), Spans(needed))
+    sh._desire = desire
+    events = []
+    for i in range(nobs):
+        o = Share.get_block(sh, 0)
+        o.subscribe(lambda i=i, **kw: events.append((i, kw)))
+    n = 0
+    while _QUEUE:
+        f, a, kw = _QUEUE.pop(0)
+        f(*a, **kw)
+        n += 1
+        if n > 60:
+            return "the share keeps looping (requests are re-sent forever)"
+    for (st, ln) in srv.reads:
+        if ln <= 0:
+            return "empty read request sent"
+    asked = Spans()
+    for (st, ln) in srv.reads:
+        asked.add(st, ln)
+    want_all = wanted + needed
+    if len(srv.reads) > 2 * (2 + len(list(want_all))):
+        return "far more read requests than desired spans: %r" % (srv.reads,)
+    if asked.dump() != want_all.dump():
+        return "requested %s, desired %s" % (asked.dump(), want_all.dump())
+    lost = fail_read and want_all.len() > 0
+    missing = Spans()
+    if nl and ns + nl > size:
+        missing.add(max(ns, size), ns + nl - max(ns, size))
+    must_die = lost or missing.len() > 0
+    dead = [(i, kw) for (i, kw) in events if kw.get("state") is DEAD]
+    if must_die:
+        if sh._alive:
+            return ("the share can never supply needed bytes %s (image is %d bytes long%s) but it was not abandoned: its block requests never "
+                    "finish and the fetcher cannot fail over" % (missing.dump(), size, ", reads fail" if fail_read else ""))
+        if sorted(set(i for (i, kw) in dead)) != list(range(nobs)) or len(dead) != len(events):
+            return "not every waiting block request was told DEAD (and nothing else): %r" % (events,)
+        if not fail_read and not all(kw["f"].check(DataUnavailable) for (i, kw) in dead):
+            return "DEAD without a DataUnavailable failure"
+        return True
+    if not sh._alive or events:
+        return "share abandoned (or observers notified) although every needed byte was supplied: %r" % (events,)
+    if sh._pending.len():
+        return "answered requests are still marked pending: %s" % sh._pending.dump()
+    got = sh._received.get_spans()
+    avail = Spans(0, size) if size else Spans()
+    if got.dump() != (want_all & avail).dump():
+        return "received %s, the server supplied %s" % (got.dump(), (want_all & avail).dump())
+    if sh._unavailable.dump() != (want_all - avail).dump():
+        return "unavailable %s, expected %s" % (sh._unavailable.dump(), (want_all - avail).dump())
+    return True
+
+
+def h_share_trunc(ws: int, wl: int, ns: int, nl: int, size: int, fail_read: bool, nobs: int) -> bool:
+    """
+    pre: 0 <= ws <= B.get("SPAN", 4) and 0 <= wl <= B.get("SPAN", 4) and 0 <= ns <= B.get("SPAN", 4) and 0 <= nl <= B.get("SPAN", 4)
+    pre: 0 <= size <= 2 * B.get("SPAN", 4) + 1 and 1 <= nobs <= 2
+    pre: (wl > 0 or ws == 0) and (nl > 0 or ns == 0)
+    pre: (B.get("nobs") is None or nobs == B.get("nobs")) and (B.get("fr") is None or fail_read == bool(B.get("fr")))
+    post: _ == True
+    """
+    n = int(B.get("SPAN", 4))
+    vals = list(range(n + 1))
+    a = [M.pick(vals, x) for x in (ws, wl, ns, nl)]
+    sz = M.pick(list(range(2 * n + 2)), size)
+    fr = True if fail_read else False
+    no = M.pick([0, 1, 2], nobs)
+    return M.run_concrete(_trunc_check, a[0], a[1], a[2], a[3], sz, fr, no)
